@@ -345,7 +345,7 @@ def ast_repr(node):
     return repr(r(node))
 
 
-def execute_op(op, sandbox, opno=0, kw=None):
+def execute_op(op, sandbox, opno=0, kw=None, on_raise=None):
     """Execute one API operation; returns the normalised outcome.  Never raises for engine
     errors (KeyboardInterrupt/MemoryError included: they are injected faults here)."""
     set_env(op, sandbox)
@@ -355,6 +355,10 @@ def execute_op(op, sandbox, opno=0, kw=None):
         ret = call_api(op["api"], kw)
     except BaseException as e:  # noqa: BLE001
         out = norm_exc(e)
+        if on_raise is not None:
+            # the state the caller finds at the moment the call raises: the exception (and through its
+            # traceback every frame of the call) is still referenced, no garbage collection has run
+            on_raise()
         del e
         return out
     return norm_return(op["api"], ret, kw)
